@@ -62,17 +62,29 @@ _A_GEN = ("rapid state-machine style generation against one fresh leader instanc
           "expiry sweep), pool collection; then a drain (cancel every queued request, release every hold, advance the clock 24 s). "
           "Oracle: reference ledger driven by the reply stream + in-package snapshot after every operation and every clock second. ")
 
+_B_GEN = (" Engine B (controlled schedules): a sequential prefix of 1..8 requests on two hot keys, then 2..5 logical threads (each on its own connection: 1..3 "
+          "LOCK/UNLOCK requests incl. unlock-first / cancel-wait / update / priority, or a sweeper thread that advances the clock 1..3 s and runs the timeout and expiry sweeps) "
+          "run as goroutines that park at the shard-mutex hook points (about to lock / just unlocked); exactly one runs at a time and the rapid-drawn schedule picks which parked "
+          "thread continues, so the interleaving is part of the case and replays. After every segment the in-package snapshot is compared with the previous one: a new holder "
+          "only if the admission rule held before (C01), granted waiter was the head of the queue (C04), locked == sum of depths and STATE counters == census (C17); every reply "
+          "is checked against the request table (C03); at the end of the schedule no admissible head waiter (C04), then a drain: all counts zero, nothing reachable, every request "
+          "answered exactly once (C17, C03). Non-trivial (engine B): >=2 thread switches and a holder added or removed during the concurrent phase.")
+
 def _engineA(prop, nontrivial, quick_checks, thorough_checks, extra_units=(), steps=None):
     units = [
         rapid_unit("A-" + prop, "^Test%s_EngineA$" % prop,
                    quick={"checks": quick_checks, "shards": 16, "timeout_s": 420},
                    thorough={"checks": thorough_checks, "shards": 16, "timeout_s": 3000}),
-        plain_unit("replay-" + prop, "^Test%s_Replay$" % prop, replay=True),
+        plain_unit("replay-" + prop, "^Test%s_Replay" % prop, replay=True),
     ]
+    if prop in ("C01", "C03", "C04", "C17"):
+        units.insert(1, rapid_unit("B-" + prop, "^Test%s_EngineB$" % prop,
+                                   quick={"checks": 4800, "shards": 16, "timeout_s": 420},
+                                   thorough={"checks": 160000, "shards": 16, "timeout_s": 3000}))
     units += list(extra_units)
     return {
         "level": "exploration",
-        "rule": _A_GEN + "Non-trivial: " + nontrivial + " Distinct = distinct FNV-64 fingerprints of the executed operation list + instance parameters.",
+        "rule": _A_GEN + "Non-trivial: " + nontrivial + " Distinct = distinct FNV-64 fingerprints of the executed operation list + instance parameters." + (_B_GEN if prop in ("C01", "C03", "C04", "C17") else ""),
         "assumptions": [
             "millisecond time flags and require-ack are not generated in this engine (they leave the virtual clock); less-lock-version, unlock-to-wait, tree lock, reverse-key, EXECUTE data and keeplive flags are excluded as the property states",
             "a LockId is not reused for a new lock request while a request bearing it is still queued on the same key",
